@@ -788,7 +788,8 @@ Proof.
   intros Hwf H. destruct (wf_pipeline_elim p Hwf) as [ls Hw]. unfold map_run in H.
   replace (auto || true) with true in H by now destruct auto.
   destruct (subpipeline p (akeys inputs) (Some Sq)) as [p'|e] eqn:Es; cbn [bind] in H; [|discriminate].
-  destruct (validate_complete_inputs p' inputs); cbn [bind] in H; [|discriminate].
+  cbv zeta in H. replace (auto || true) with true in H by now destruct auto.
+  destruct (validate_complete_inputs p' inputs true); cbn [bind] in H; [|discriminate].
   exists p'. split; [reflexivity|].
   destruct (sub_facts p (akeys inputs) Sq p' Es) as [outs [Hm [_ [Hp' [Houts Hroots]]]]].
   destruct (run_generations_spec body pick p ls Hw inputs Sq p' Es outs Hp' Houts Hroots store lg H) as [H1 H2].
@@ -969,14 +970,17 @@ Section MapAccept.
     - change (fid (upd f0)) with (fid f0) in Hfid. now rewrite <- Hfid.
   Qed.
 
-  (* _validate_complete_inputs passes when every provided name is a root argument of the sub-pipeline *)
-  Lemma ma_validate : (forall k, In k (akeys inputs) -> In k (root_arg_names p')) -> validate_complete_inputs p' inputs = Ok tt.
+  (* _validate_complete_inputs passes when every provided name is a root argument of the sub-pipeline or an output of
+     one of its multi-output functions *)
+  Lemma ma_validate : (forall k, In k (akeys inputs) -> In k (root_arg_names p') \/ In k (overridable p')) ->
+    validate_complete_inputs p' inputs true = Ok tt.
   Proof.
     intros Hin. unfold validate_complete_inputs.
     assert (E1 : subset_str (root_arg_names p') (akeys inputs ++ akeys (pdefaults p')) = true).
     { apply subset_str_incl. intros r Hr. apply in_app_iff. destruct (Hroots r Hr) as [[H _]|H]; auto. }
-    assert (E2 : subset_str (akeys inputs ++ akeys (pdefaults p')) (root_arg_names p') = true).
-    { apply subset_str_incl. intros k Hk. apply in_app_iff in Hk as [Hk|Hk]; [now apply Hin|].
+    assert (E2 : subset_str (diff_str (akeys inputs ++ akeys (pdefaults p')) (overridable p')) (root_arg_names p') = true).
+    { apply subset_str_incl. intros k Hk. apply diff_str_In in Hk as [Hk Hno]. apply in_app_iff in Hk as [Hk|Hk].
+      { destruct (Hin k Hk) as [H|H]; [assumption|contradiction]. }
       unfold akeys in Hk. apply in_map_iff in Hk as [[k0 v] [E Hk]]. cbn in E. subst k0.
       unfold pdefaults in Hk. apply in_flat_map in Hk as [f' [Hf' Hk]]. apply filter_In in Hk as [Hk Hc]. cbn [fst] in Hc.
       destruct (ma_inv f' Hf') as [f [Hfq [Hfp ->]]].
@@ -990,15 +994,25 @@ Section MapAccept.
   Qed.
 End MapAccept.
 
-(* map(inputs, output_names=S): every computable request outside the two known-finding regions is accepted and
-   runs to completion (with total user functions) *)
+(* a needed function is the producer of the requested output or of a name that is not supplied *)
+Lemma needed_inv p kw : forall n x g, In g (needed n p kw x) ->
+  producer p x = Some g \/ exists cur, aget kw cur = None /\ producer p cur = Some g.
+Proof.
+  induction n as [|n IH]; intros x g H; [contradiction|]. rewrite (needed_S p kw) in H.
+  destruct (producer p x) as [f|] eqn:Ef; [|contradiction]. destruct H as [<-|H]; [now left|]. right.
+  apply in_flat_map in H as [cur [Hcur H]]. destruct (source_of p kw f cur) as [| |g0| |] eqn:Es; try contradiction.
+  apply (source_SUp p kw) in Es as [_ [Ek Eg]]. destruct (IH cur g H) as [E|E]; [|exact E]. exists cur. split; [assumption|congruence].
+Qed.
+
+(* map(inputs, output_names=S): every computable request outside the ONE known-finding region is accepted and runs to
+   completion (with total user functions); no requested output is itself provided *)
 Theorem map_computable_accepted body pick p inputs Sq auto :
   wf_pipeline p -> (forall f a, exists r, body f a = Ok r) ->
   (forall o, In o Sq -> is_output p o = true /\ sufficient p inputs o) ->
   dead_defaults_agree p inputs Sq ->
   (forall k, In k (akeys inputs) ->
      exists o f, In o Sq /\ In f (needed_top p inputs o) /\ In k (pnames f) /\ aget (bound f) k = None) ->
-  (forall k, In k (akeys inputs) -> forall o f, In o Sq -> In f (needed_top p inputs o) -> ~ In k (outs f)) ->
+  (forall o, In o Sq -> ~ In o (akeys inputs)) ->
   exists store lg, map_run body pick p inputs (Some Sq) auto = Ok (store, lg).
 Proof.
   intros Hwfb Hbody HS HD Hread Hnot. destruct (wf_pipeline_elim p Hwfb) as [ls Hw].
@@ -1015,31 +1029,43 @@ Proof.
   assert (Hp' : p' = map (with_defaults (lost_defaults p (kept_of p (akeys inputs) outs))) (kept_of p (akeys inputs) outs)) by reflexivity.
   pose proof (acc_outputs p ls Hw (akeys inputs) Sq inputs Hk HS outs Hm) as Houtp'. fold q in Houtp'. fold p' in Houtp'.
   pose proof (acc_roots p ls Hw (akeys inputs) Sq inputs Hk HS outs Hm) as Hroots. fold q in Hroots. fold p' in Hroots.
-  unfold map_run. replace (auto || true) with true by now destruct auto. rewrite Hsub. cbn [bind].
-  assert (Hin : forall k, In k (akeys inputs) -> In k (root_arg_names p')).
+  unfold map_run. cbv zeta. replace (auto || true) with true by now destruct auto. rewrite Hsub. cbn [bind].
+  assert (Hin : forall k, In k (akeys inputs) -> In k (root_arg_names p') \/ In k (overridable p')).
   { intros k Hkin. destruct (Hread k Hkin) as [o [f [Ho [Hf [Hkp Hb]]]]].
     assert (Hfp : In f p) by apply (needed_in_p p inputs (S (length p)) o f Hf).
     assert (Hfq : In f q) by (apply (acc_kept_iff p ls Hw (akeys inputs) Sq inputs Hk HS outs Hm f Hfp); eauto).
-    unfold root_arg_names. apply dedup_In, in_flat_map. exists (with_defaults (lost_defaults p q) f).
-    split; [unfold p'; now apply in_map|]. apply filter_In. split; [exact Hkp|].
-    change (bound (with_defaults (lost_defaults p q) f)) with (bound f). apply ahas_false_iff in Hb. rewrite Hb. cbn [negb andb].
-    apply negb_true_iff. rewrite (is_output_p'_q p (akeys inputs) p' outs Hp'). fold q.
-    destruct (is_output q k) eqn:Eo; [|reflexivity]. exfalso. apply is_output_true in Eo as [g Eg].
-    pose proof (producer_Some _ _ _ Eg) as [Hgq Hkg]. pose proof (q_in_p p (akeys inputs) outs g Hgq) as Hgp.
-    apply (acc_kept_iff p ls Hw (akeys inputs) Sq inputs Hk HS outs Hm g Hgp) in Hgq as [o' [Ho' Hg']].
-    exact (Hnot k Hkin o' g Ho' Hg' Hkg). }
+    destruct (is_output q k) eqn:Eo.
+    - right. apply is_output_true in Eo as [g Eg].
+      pose proof (producer_Some _ _ _ Eg) as [Hgq Hkg]. pose proof (q_in_p p (akeys inputs) outs g Hgq) as Hgp.
+      destruct (multi g) eqn:Em.
+      + unfold overridable. apply in_flat_map. exists (with_defaults (lost_defaults p q) g).
+        split; [unfold p'; now apply in_map|]. change (multi (with_defaults (lost_defaults p q) g)) with (multi g). now rewrite Em.
+      + exfalso. rewrite (single_outs g (wf_funcs _ _ Hw g Hgp) Em) in Hkg. destruct Hkg as [Ek|[]].
+        pose proof Hgq as Hgn. apply (acc_kept_iff p ls Hw (akeys inputs) Sq inputs Hk HS outs Hm g Hgp) in Hgn as [o' [Ho' Hg']].
+        assert (Hout : forall c, In c (Pipe.outs g) -> c = k).
+        { intros c Hc. rewrite (single_outs g (wf_funcs _ _ Hw g Hgp) Em) in Hc. destruct Hc as [<-|[]]. exact Ek. }
+        destruct (needed_inv p inputs _ o' g Hg') as [E|[cur [Ecur E]]].
+        * apply producer_Some in E as [_ E]. apply Hout in E. subst o'. exact (Hnot k Ho' Hkin).
+        * apply producer_Some in E as [_ E]. apply Hout in E. subst cur. apply aget_None_iff in Ecur. contradiction.
+    - left. unfold root_arg_names. apply dedup_In, in_flat_map. exists (with_defaults (lost_defaults p q) f).
+      split; [unfold p'; now apply in_map|]. apply filter_In. split; [exact Hkp|].
+      change (bound (with_defaults (lost_defaults p q) f)) with (bound f). apply ahas_false_iff in Hb. rewrite Hb. cbn [negb andb].
+      apply negb_true_iff. rewrite (is_output_p'_q p (akeys inputs) p' outs Hp'). fold q. exact Eo. }
   rewrite (ma_validate p Hwfb inputs p' outs Hp' Hroots Hin). cbn [bind].
   exact (ma_run_generations body pick Hbody p ls Hw inputs Sq p' Hsub outs Hp' Houtp' Hroots).
 Qed.
 
-(* the guard on provided outputs of needed functions cannot be dropped: f(x) -> (a, c); h(a, c) -> d;
-   inputs {x, a}; S = {d}: computable, the sub-pipeline is built, map refuses the provided a *)
+(* the former refusal f(x) -> (a, c); h(a, c) -> d; inputs {x, a}; S = {d}: accepted, f runs (c is needed) and h
+   receives the PROVIDED a *)
 Definition w_k2 : pipeline :=
   [ mkf (s "f") [s "a"; s "c"] [(s "x", s "x")] [] [] false;
     mkf (s "h") [s "d"] [(s "a", s "a"); (s "c", s "c")] [] [] false ].
 Lemma k2_witness :
   wf_pipelineb w_k2 = true /\ computableb w_k2 [s "x"; s "a"] [s "d"] = true
-  /\ all_readb w_k2 [s "x"; s "a"] [s "d"] = true
   /\ subpipeline w_k2 [s "x"; s "a"] (Some [s "d"]) = Ok w_k2
-  /\ map_run Sym.body Sym.pick w_k2 [(s "x", s "1"); (s "a", s "A")] (Some [s "d"]) false = Err ValueError.
+  /\ option_map (fun r => (aget (fst r) (s "d"), map fst (snd r)))
+       (match map_run Sym.body Sym.pick w_k2 [(s "x", s "1"); (s "a", s "A")] (Some [s "d"]) false with
+        | Ok r => Some r | Err _ => None end)
+     = Some (Some (s "h(a=A,c=out(c;f(x=1)))"), [s "f"; s "h"])
+  /\ map_run Sym.body Sym.pick w_k2 [(s "x", s "1"); (s "a", s "A"); (s "d", s "D")] None false = Err ValueError.
 Proof. vm_compute. auto 10. Qed.
